@@ -36,6 +36,8 @@ def verdict(field, fmt, cell):
     if fixed and stripped == "" and cell.strip(" ") != "":
         return ("neutral", "fixed cell of non-blank white space")
     if stripped == "":
+        if fixed and field.get("length_items") and len(cell) > field["length_items"][0][0]:
+            return ("neutral", "blank cell wider than the fixed field")
         if field["empty"]:
             return ("accept", EMPTY_VALUE[field["type"]])
         return ("reject", "empty")
